@@ -1,25 +1,25 @@
-// scratch probe: which pairs collide for plain box robots
-use opwv::gen::IsoSpec;
+// scratch probe for C12
 use opwv::glue::*;
-use opwv::scene::*;
-use std::collections::BTreeMap;
+use opwv::props::c12::*;
+use rs_opw_kinematics::cartesian::*;
+use rs_opw_kinematics::kinematic_traits::Kinematics;
+use rs_opw_kinematics::rrt::RRTPlanner;
 fn main() {
-    let mut hist: BTreeMap<String, u32> = BTreeMap::new();
-    let mut state: u64 = 12345;
-    let mut rnd = || { state = state.wrapping_mul(6364136223846793005).wrapping_add(1442695040888963407); ((state >> 11) as f64) / ((1u64 << 53) as f64) };
-    let mut n = 0;
-    for (name, robot) in catalogue() {
-        let scene = Scene { robot, link_r: [0.03; 6], link_fan: [0; 6], tool: Some((0.2, 0.03, 0)), base: Some((IsoSpec::identity(), [0.2, 0.2], 0.3, 0)), env: vec![], safety: SafetySpec::touch(1), limits: None, slim: true };
-        for _ in 0..200 {
-            let j: [f64; 6] = std::array::from_fn(|_| (rnd() * 2.0 - 1.0) * 3.14);
-            let b = scene.build(&j);
-            let det = b.robot.collision_details(&j);
-            n += 1;
-            for p in det { *hist.entry(format!("{} {}", name, opwv::props::c10::pair_name(&p))).or_insert(0) += 1; }
-        }
-    }
-    println!("{} postures", n);
-    let mut agg: BTreeMap<String, u32> = BTreeMap::new();
-    for (k, v) in &hist { *agg.entry(k.split(' ').nth(1).unwrap().to_string()).or_insert(0) += v; }
-    for (k, v) in agg { println!("{:12} {}", k, v); }
+    let f = std::env::args().nth(1).unwrap();
+    let v: serde_json::Value = serde_json::from_str(&std::fs::read_to_string(f).unwrap()).unwrap();
+    let c: Case = serde_json::from_value(v["case"].clone()).unwrap();
+    let (s, k) = setup_free(&c).unwrap();
+    println!("attempt {} start {:?}", k, s.start);
+    let robot = &s.built.robot;
+    let land = to_na(&s.poses[0]);
+    let sols = robot.inverse_continuing(&land, &s.start);
+    for x in &sols { println!("landing solution {:?} compliant {}", x, robot.constraints().as_ref().unwrap().compliant(x)); }
+    let n = s.poses.len();
+    let park = to_na(&s.poses[n - 1]);
+    let strokes: Vec<_> = s.poses[1..n - 1].iter().map(to_na).collect();
+    let planner = Cartesian { robot, check_step_m: c.check_step_m, check_step_rad: c.check_step_deg.to_radians(), max_transition_cost: c.max_cost_deg.to_radians(),
+        transition_coefficients: c.coeffs.unwrap_or(DEFAULT_TRANSITION_COSTS), linear_recursion_depth: c.depth as usize,
+        rrt: RRTPlanner { step_size_joint_space: c.rrt_step_deg.to_radians(), max_try: c.rrt_max_try as usize, debug: false }, include_linear_interpolation: c.include, debug: false };
+    let r = planner.plan(&s.start, &land, strokes, &park);
+    match r { Ok(p) => for (i, w) in p.iter().enumerate() { eprintln!("{} {:?}", i, w); }, Err(e) => eprintln!("ERR {}", e) }
 }
